@@ -141,6 +141,14 @@ Definition lines (l : list str) : str := concat (map (fun v => v ++ nl) l).
    and either the error it returns or the updated file table *)
 Definition is_nil {T} (l : list T) : bool := match l with [] => true | _ => false end.
 
+(* what earlier generators wrote into the file's body ends its last line before the next one
+   writes (fix: commit recorded in KNOWN_FINDINGS.txt) *)
+Definition ended (b : str) : str :=
+  match rev b with
+  | [] => b
+  | c :: _ => if N.eqb c 10 then b else b ++ nl
+  end.
+
 Definition gen_step (c : ctx) (t : target) (pord : list N) (g : gen) (files : list file)
   : list event * (xerr + list file) :=
   let gord := filter (fun x => memN_ x (gfilter g)) pord in
@@ -163,7 +171,7 @@ Definition gen_step (c : ctx) (t : target) (pord : list N) (g : gen) (files : li
               else header_comment (fvars f) (s "Package-wide variables from generator " ++ quoted (gname g) ++ s ".") ++ lines (gvars g) in
     let fc := if is_nil (gconsts g) then fconsts f
               else header_comment (fconsts f) (s "Package-wide consts from generator " ++ quoted (gname g) ++ s ".") ++ lines (gconsts g) in
-    let '(bevs, body, herr) := exec_body g vis gord (fbody f) in
+    let '(bevs, body, herr) := exec_body g vis gord (ended (fbody f)) in
     let ev1 := ev0 ++ [EvVars (gname g) vis; EvConsts (gname g) vis] ++ bevs in
     match herr with
     | Some which => (ev1, inl (XHook (gname g) which))
